@@ -96,6 +96,13 @@ void gen_rounds(Plan *p, Rng *g, int tier, int max_rounds, int64_t max_bytes)
 			static const int64_t wc[] = { 0, 0, 0, 1, 17, 100, 1000, 16384, 16385, 20000 };
 			int64_t w = pick(g, wc, 10);
 			if (w && n / w > 48) w = n / 48 + 1;
+			if (rng_chance(g, 1, 12) && max_bytes >= 300) {
+				/* a long-lived direction: 258..297 small records, so that sequence numbers carry out of their lowest byte */
+				w = 1 + (int64_t)rng_below(g, 40);
+				if (w > max_bytes / 300) w = max_bytes / 300;
+				n = w * (258 + (int64_t)rng_below(g, 40));
+				r->n[d] = n;
+			}
 			r->wchunk[d] = w;
 			static const int64_t rb[] = { 1, 2, 16, 100, 1024, 4096, 16384, 20000, 20000 };
 			int64_t b = pick(g, rb, 9);
